@@ -195,6 +195,35 @@ func BuildPNG(before []Chunk, exif *Doc, after []Chunk) (*Doc, int) {
 	return d, exifAt
 }
 
+// BuildPNGLate writes signature, IHDR, before..., IDAT, IDAT, eXIf(payload), after..., IEND:
+// the eXIf chunk after the image data, which the PNG extension allows.
+func BuildPNGLate(before []Chunk, exif *Doc, after []Chunk) (*Doc, int) {
+	d := &Doc{}
+	d.Str("\x89PNG\r\n\x1a\n")
+	i := 0
+	pngChunk(d, Chunk{Type: "IHDR", Data: []byte{0, 0, 0, 16, 0, 0, 0, 16, 8, 2, 0, 0, 0}}, i)
+	i++
+	for _, c := range before {
+		pngChunk(d, c, i)
+		i++
+	}
+	idat := make([]byte, 80)
+	for k := range idat {
+		idat[k] = byte(k*29 + 3)
+	}
+	pngChunk(d, Chunk{Type: "IDAT", Data: idat}, i)
+	pngChunk(d, Chunk{Type: "IDAT", Data: idat[:33]}, i+1)
+	i += 2
+	exifAt := pngChunk(d, Chunk{Type: "eXIf", Data: exif.B, Sub: exif}, i)
+	i++
+	for _, c := range after {
+		pngChunk(d, c, i)
+		i++
+	}
+	pngChunk(d, Chunk{Type: "IEND"}, i)
+	return d, exifAt
+}
+
 // ---------------------------------------------------------------------------
 // ISOBMFF
 
